@@ -116,6 +116,9 @@ type BackendConn struct {
 	Out         func([]byte) // if set, replies are written here instead of to Link
 }
 
+// Supports reports whether the node speaks protocol version v.
+func (n *Node) Supports(v primitive.ProtocolVersion) bool { return n.supports(v) }
+
 func (n *Node) supports(v primitive.ProtocolVersion) bool {
 	if n.DSE {
 		switch v {
@@ -269,6 +272,9 @@ func (c *BackendConn) handle(raw []byte) {
 	switch msg := frm.Body.Message.(type) {
 	case *message.Options:
 		w.Stat("backend.options")
+		if c.Started {
+			w.Stat("backend.options_on_started_conn")
+		}
 		c.Version = pickVersion(c.Version, hdr.Version)
 		if n.EvilHeartbeat > 0 && c.Started {
 			// a hostile node answers a heartbeat with something else
@@ -297,6 +303,9 @@ func (c *BackendConn) handle(raw []byte) {
 			c.replyNow(stream, &message.ProtocolError{ErrorMessage: fmt.Sprintf("Invalid or unsupported protocol version (%d); supported versions are (3/v3, 4/v4)", hdr.Version)})
 			return
 		}
+		if c.Started {
+			w.Stat("backend.second_startup")
+		}
 		c.Version = hdr.Version
 		c.Started = true
 		if comp, ok := msg.Options["COMPRESSION"]; ok {
@@ -319,6 +328,7 @@ func (c *BackendConn) handle(raw []byte) {
 			c.replyNow(stream, &message.AuthenticationError{ErrorMessage: "Provided username and/or password are incorrect"})
 		}
 	case *message.Register:
+		w.Stat("backend.register")
 		c.Registered = true
 		c.Control = true
 		c.replyNow(stream, &message.Ready{})
@@ -388,6 +398,9 @@ func (c *BackendConn) handleQuery(raw []byte, frm *frame.Frame, msg *message.Que
 	}
 	c.tokenised(raw, frm, msg, tokenOf(msg))
 }
+
+// PreparedID is the id a node returns for PREPARE of query.
+func PreparedID(query string) []byte { return preparedID(query, "") }
 
 func preparedID(query, keyspace string) []byte {
 	s := md5.Sum([]byte(query + "\x00" + keyspace))
